@@ -24,7 +24,11 @@ pub fn file_pos(
     snap: &ServerSnapshot,
     doc: lsp_types::TextDocumentPositionParams,
 ) -> (FilePosition, Arc<LineIndex>) {
+    #[cfg(tablegen_lsp_verif)]
+    crate::server::verif::verif_sync("task.vfs_read.file_pos");
     let vfs = snap.vfs.read().unwrap();
+    #[cfg(tablegen_lsp_verif)]
+    crate::server::verif::verif_sync("task.vfs_acquired");
     let path = UrlExt::to_file_path(&doc.text_document.uri);
     let file_id = vfs.file_for_path(&path).unwrap();
     let line_index = snap.analysis.line_index(file_id);
@@ -37,7 +41,11 @@ pub fn file_range(
     doc: lsp_types::TextDocumentIdentifier,
     lsp_range: lsp_types::Range,
 ) -> (FileRange, Arc<LineIndex>) {
+    #[cfg(tablegen_lsp_verif)]
+    crate::server::verif::verif_sync("task.vfs_read.file_range");
     let vfs = snap.vfs.read().unwrap();
+    #[cfg(tablegen_lsp_verif)]
+    crate::server::verif::verif_sync("task.vfs_acquired");
     let path = UrlExt::to_file_path(&doc.uri);
     let file_id = vfs.file_for_path(&path).unwrap();
     let line_index = snap.analysis.line_index(file_id);
@@ -49,7 +57,11 @@ pub fn file(
     snap: &ServerSnapshot,
     doc: lsp_types::TextDocumentIdentifier,
 ) -> (FileId, Arc<LineIndex>) {
+    #[cfg(tablegen_lsp_verif)]
+    crate::server::verif::verif_sync("task.vfs_read.file");
     let vfs = snap.vfs.read().unwrap();
+    #[cfg(tablegen_lsp_verif)]
+    crate::server::verif::verif_sync("task.vfs_acquired");
     let path = UrlExt::to_file_path(&doc.uri);
     let file_id = vfs.file_for_path(&path).unwrap();
     let line_index = snap.analysis.line_index(file_id);
